@@ -211,6 +211,19 @@ CLAIMED["C17"] = {
     "design_ref": "DESIGN.md §5 C17",
 }
 
+CLAIMED["C16"] = {
+    "text": "Decides the grammar clause only: every assumption an AST builder makes about the shape of its parse-tree node is implied by grammar.pest. "
+            "The grammar (dumped through pest_meta) is turned into child-sequence automata per token-producing rule (silent rules inlined, atomic rules "
+            "childless, PEG choice treated as unordered); a flow-sensitive, inter-procedural typestate analysis over the MIR of the ~86 functions of crate "
+            "compiler that handle Node / Nodes / Pair values tracks a rule set per node and an automaton-state set per iterator (refined by matches on "
+            "as_rule(), == comparisons, Option tests, boolean flags, aliases through clone / Node::new_with_user_data, the Pratt-parser "
+            "primary/prefix/infix/postfix partition read from the Op::infix(Rule::X) constants) and decides ~100 obligations: O1 a match on as_rule() "
+            "whose fall-through can only panic has an arm for every rule the grammar can produce there; O2 an unwrapped next()/last() cannot be None; "
+            "O3 an unwrapped single() has exactly one child. Not decided: panics resting on typing/scoping invariants (counted), stack depth, termination.",
+    "technique": "static analysis: typestate / abstract interpretation of rustc MIR against automata built from the pest grammar",
+    "design_ref": "DESIGN.md §5 C16, §4.8",
+}
+
 NOT_APPLICABLE = {
     "C01": "observable is program output; mechanism is relative jump offsets computed from Vec::len() arithmetic of recursively compiled blocks - deciding it needs symbolic execution of the generators (a different family); see DESIGN.md §5 C01",
     "C09": "a property of the compiler's *output* for all programs (jump targets, frame balance, operand-stack shape): needs symbolic block lengths or a verifier over emitted bytecode (translation validation), not an analysis of /repo's source; DESIGN.md §5 C09",
@@ -219,7 +232,7 @@ NOT_APPLICABLE = {
 }
 
 # no hook commits exist; the only commits made to /repo are unguarded "fix:" repairs of genuine defects (see known_findings.json)
-FIX_COMMITS = ["e2ae2a9", "cb2d1e0", "e7575e5", "7bc2f7d", "0af4d83", "e4a4c00", "58e025f", "686179e", "7296d9a", "fa4b68b", "379557f", "4b30646", "0420930", "3aba53e", "2f2a1a1", "40a185d", "926b1f7", "1bc1139", "80aa30b", "cb4346c", "34ccc50", "c46bbfb", "52e39f3"]
+FIX_COMMITS = ["e2ae2a9", "cb2d1e0", "e7575e5", "7bc2f7d", "0af4d83", "e4a4c00", "58e025f", "686179e", "7296d9a", "fa4b68b", "379557f", "4b30646", "0420930", "3aba53e", "2f2a1a1", "40a185d", "926b1f7", "1bc1139", "80aa30b", "cb4346c", "34ccc50", "c46bbfb", "52e39f3", "113558c", "2f9df7c", "3049d27", "8c4d891"]
 
 PENDING = "check not built yet in this round (framework under construction); planned per DESIGN.md §5/§8"
 
